@@ -41,6 +41,8 @@ abbrev KV := List (String × Val)
 
 inductive PTy where
   | scalar (ty : String)
+  /-- `Optional[ty]` for a scalar `ty`: `None` or a value of the scalar type -/
+  | optScalar (ty : String)
   | cls (base : String)
   | optCls (base : String)
 deriving DecidableEq, Repr
@@ -187,6 +189,11 @@ def adaptValueWith (rec : String → Option Val → Val → Except Err Val) (ty 
     match coerceScalar t v with
     | some y => .ok y
     | none => .error .illTyped
+  | .optScalar t =>
+    if isNone v then .ok v else
+    match coerceScalar t v with
+    | some y => .ok y
+    | none => .error .illTyped
   | .cls b => rec b prev v
   | .optCls b => if isNone v then .ok v else rec b prev v
 
@@ -274,6 +281,11 @@ def finalizeArgsWith (rec : Val → Except Err Val) (ia : KV) : List IParam → 
         (match p.ty with
          | .scalar t =>
            -- the final check adapts every stored value once more (a value kept across a class change is converted here)
+           (match coerceScalar t x with
+            | some y => .ok y
+            | none => .error .illTyped)
+         | .optScalar t =>
+           if isNone x then .ok x else
            (match coerceScalar t x with
             | some y => .ok y
             | none => .error .illTyped)
